@@ -190,14 +190,15 @@ def matcher(fid):
 @matcher('F-C02-1')
 def _m_c02_1(d, k):
     r = d.get('replay') or {}
-    return d['kind'] == 'spec' and d['tie'].startswith('T-run') and 's' in (r.get('opts') or '') and r.get('model_agrees') is True
+    return (d['kind'] == 'spec' and d['tie'].startswith('T-run') and 's' in (r.get('opts') or '') and r.get('model_agrees') is True
+            and r.get('switch_safe') is not True)
 
 
 @matcher('F-C07-1')
 def _m_c07_1(d, k):
     r = d.get('replay') or {}
     return (d['kind'] == 'spec' and d['tie'].startswith('T-run') and 's' in (r.get('opts') or '') and 'n' in (r.get('opts') or '')
-            and r.get('model_agrees') is True)
+            and r.get('model_agrees') is True and r.get('switch_safe') is not True)
 
 
 @matcher('F-C08-3')
@@ -256,7 +257,9 @@ def core(ctx, optsets_needed, fields, cross=None, note='', sweep='core', build_m
         fm = [f for f in d.get('fields_model', []) if f in fields or f == 'error']
         rep = {'grammar': d['text'], 'opts': d['opts'], 'entry': d.get('entry'), 'memo': d.get('memo'), 'input': d.get('input'),
                'real': d.get('real'), 'model': d.get('model'), 'spec': d.get('spec'), 'case': d['k'],
-               'model_agrees': not d.get('fields_model')}
+               'model_agrees': not d.get('fields_model'),
+               # the decidable hypothesis of C02_switch_same_as_default on this grammar ('s' programs only)
+               'switch_safe': (sw.get('switch_hyps', {}).get(d['k'].split('|')[0]) or {}).get('switchSafe')}
         if fs:
             ctx.add('spec', 'T-run/spec', 'real parser disagrees with the PEG semantics on %s for input %r (entry %s, opts "%s")' % (
                 fs, d.get('input'), d.get('entry'), d['opts']), rep)
@@ -276,9 +279,10 @@ def core(ctx, optsets_needed, fields, cross=None, note='', sweep='core', build_m
         'programs_compared_T_emit': st.get('programs', 0) + ctx.coverage.get('programs_compared_T_emit', 0),
         'rule': 'random well-formed grammars (type-directed generator, seed %d) + exhaustive enumeration of one-rule grammars with <= %d operator nodes over {a,b}; '
                 'inputs: all strings of length <= 3 over {a,b,c} (<= 4 over {a,b} for enumerated grammars), strings sampled from the grammar, their mutations, random strings; '
-                'every rule as entry point; memoisation on and off. ' % (ctx.seed, (S.THOROUGH if ctx.tier == 'thorough' else S.QUICK)['enum_k']) + note,
+                'every rule as entry point; memoisation on and off; every third case is the second use of its parser object (another input parsed first, then Buffer/Reset/Parse). ' % (ctx.seed, (S.THOROUGH if ctx.tier == 'thorough' else S.QUICK)['enum_k']) + note,
         'samples': st.get('samples', [])[:3],
-        'input_distribution': {'operators': st.get('ops'), 'grammar_kinds': st.get('kinds'), 'by_option_set': {o: by.get(o or 'd') for o in want}},
+        'input_distribution': {'operators': st.get('ops'), 'grammar_kinds': st.get('kinds'), 'by_option_set': {o: by.get(o or 'd') for o in want},
+                               'second_use_cases': st.get('second_use_cases')},
         'sweep_wall_s': st.get('wall_s'),
         'theorem_hypotheses_on_sweep_grammars': st.get('theorem_hypotheses'),
     })
@@ -286,7 +290,11 @@ def core(ctx, optsets_needed, fields, cross=None, note='', sweep='core', build_m
         ctx.coverage['input_distribution_' + sweep] = ctx.coverage['input_distribution']
         ctx.coverage['input_distribution'] = prev_dist
     if sweep == 'switch':
+        sh = sw.get('switch_hyps', {})
         ctx.coverage['switch_sweep'] = {'nil_case_outputs': len(sw.get('nilcase', [])), 'slow_generations_skipped': len(sw.get('slow', [])),
+                                        'theorem_hypotheses_switch': st.get('switch_hypotheses'),
+                                        'spec_disagreements_on_switchSafe_programs': sum(
+                                            1 for d in sw['run_diffs'] if d.get('fields_spec') and (sh.get(d['k'].split('|')[0]) or {}).get('switchSafe')),
                                         'spec_disagreements_reproduced_by_model': sum(1 for d in sw['run_diffs'] if d.get('fields_spec') and not d.get('fields_model'))}
     return sw, by
 
@@ -360,7 +368,7 @@ def errx(ctx):
 
 
 def c02(ctx):
-    ctx.proofs(['PegVerif.Props.C02'])
+    ctx.proofs(['PegVerif.Props.C02', 'PegVerif.Props.C02Switch'])
     sw, by = core(ctx, ['i'], ['v', 'toks'], cross='opts', note='-inline against the default parser of the same grammar.')
     n1 = by.get('i', {}).get('ok', 0)
     sw2, by2 = core(ctx, ['s', 'is'], ['v', 'toks'], cross='opts', sweep='switch',
